@@ -38,6 +38,8 @@ type reflCase struct {
 	Types      [][]reflType      `json:"types"` // per file, in go_types order
 	Queries    []c15refl.Q       `json:"queries"`
 	QueriesAst []c15refl.Q       `json:"queries_ast"` // for the private registry of RegisterAST
+	QueriesMid []c15refl.Q       `json:"queries_mid"` // asked while files are still missing (nil: same as Queries)
+	FullFirst  bool              `json:"full_first"`  // the full batch only at the end of the first order (else: of every order)
 	Rereg      bool              `json:"rereg"`       // register every file a second time (same content) at the end
 }
 
@@ -174,7 +176,12 @@ func runReflect(c *reflCase) *reflObs {
 			func() {
 				reflRegistryMu.Lock()
 				defer reflRegistryMu.Unlock()
-				trc.Events = append(trc.Events, reflEvent{Op: "obs", Qs: w.RunAll(copyQs(c.Queries))})
+				mid := c.QueriesMid
+				if mid == nil {
+					mid = c.Queries
+				}
+				nreg := 0
+				trc.Events = append(trc.Events, reflEvent{Op: "obs", Qs: w.RunAll(copyQs(mid))})
 				regOne := func(op string, f int) {
 					ev := reflEvent{Op: op, F: f}
 					ev.Err = nd.Guard(func() {
@@ -190,7 +197,23 @@ func runReflect(c *reflCase) *reflObs {
 						ev.Err = ev.Err[:300]
 					}
 					trc.Events = append(trc.Events, ev)
-					trc.Events = append(trc.Events, reflEvent{Op: "obs", Qs: w.RunAll(copyQs(c.Queries))})
+					nreg++
+					qs := mid
+					if nreg >= len(order) && (k == 0 || !c.FullFirst) { // everything registered: the full batch
+						qs = c.Queries
+					}
+					if op == "rereg" {
+						// a second registration hands the Go types to a second, equal descriptor object; the harness
+						// identifies answers by object identity, so the Go-type lookups are left out from here on
+						var keep []c15refl.Q
+						for _, q := range qs {
+							if q.Q != "bygo" && q.Q != "togo" && q.Q != "own" {
+								keep = append(keep, q)
+							}
+						}
+						qs = keep
+					}
+					trc.Events = append(trc.Events, reflEvent{Op: "obs", Qs: w.RunAll(copyQs(qs))})
 				}
 				for _, f := range order {
 					regOne("reg", f)
